@@ -6,6 +6,9 @@ run are restored from git afterwards (evidence must come from /repo itself)."""
 import sys, os, json, subprocess, shutil, tempfile
 
 
+VROOT = os.environ.get('VERIF_ROOT', '/verif')   # a private copy of /verif to run the checks in (seeded/ is always /verif's)
+
+
 def sh(cmd, **kw):
     return subprocess.run(cmd, shell=True, capture_output=True, text=True, **kw)
 
@@ -36,12 +39,12 @@ def main():
         c = meta.setdefault('confirmed', {})
         checks = c.setdefault('checks', {})
         for p in props:
-            r = sh('cd /verif && VERIF_SEED=%d ./check %s --tier quick' % (seed, p), env=env, timeout=3000)
+            r = sh('cd %s && VERIF_SEED=%%d ./check %%s --tier quick' % VROOT % (seed, p), env=env, timeout=3000)
             lines = [l for l in r.stdout.splitlines() if l.startswith(('VIOLATION', 'KNOWN-FINDING', 'INFRA'))]
             checks['%s/quick/seed%d' % (p, seed)] = dict(exit=r.returncode, lines=lines[:6],
                                                          summary=r.stdout.strip().splitlines()[-1:], rechecked_at=head)
             print(name, p, 'exit', r.returncode, lines[:3], r.stdout.strip().splitlines()[-1:])
-            sh('cd /verif && git checkout -- evidence/%s.json' % p)
+            sh('cd %s && git checkout -- evidence/%s.json' % (VROOT, p))
         c['demo_on_changed_recheck'] = demo_rc
         c['detected'] = any(v['exit'] == 1 and any(l.startswith('VIOLATION') for l in v['lines'])
                             for v in checks.values())
